@@ -1088,7 +1088,17 @@ func GenConsumer(g *pk.Gen) {
 					cs[k].NoWait = true
 				}
 			}
-			if len(pkts) >= 2 && g.Rng.Intn(3) == 0 && cs[0].Kind != 0 {
+			// the corner of the drain: the callback fails on the FIRST package of a wait = false call while the rest of the
+			// response has not arrived yet (the drain has to wait for it all the same)
+			forceSplit := false
+			if g.Rng.Intn(6) == 0 {
+				cs = []Call{{Kind: 1, K: g.Rng.Intn(2), Outcome: []int{3, 4}[g.Rng.Intn(2)], NoWait: true}}
+				if g.Rng.Bool() {
+					cs = append(cs, Call{Kind: 0})
+				}
+				forceSplit = true
+			}
+			if len(pkts) >= 2 && (forceSplit || g.Rng.Intn(3) == 0) && cs[0].Kind != 0 {
 				// the response arrives in two parts: the first is there when the consumer starts, the rest arrives while
 				// its first call is under way
 				j := g.Rng.Range(1, len(pkts)-1)
